@@ -3,6 +3,8 @@ CONSTANTS
   MaxTx = 4
   MaxCores = 2
   MinBatch = 2
+  ItemCap = 1
+  BlockingAdd = TRUE
   FlushRemainder = TRUE
 INVARIANTS VerdictCorrect EverySigChecked NoSendAfterClose NotStuck
 CHECK_DEADLOCK FALSE
